@@ -331,13 +331,18 @@ pub fn run_case(case: &Arc<Case>, ctx: &Arc<ExecCtx>) -> RunInfo {
                 ctx.log(Ev::SendEnd { actor: Actor::Driver, port: 2000 + *target, msg: id, replies });
                 res
             }
-            Cmd::ProcessSource { src, kind } => {
+            Cmd::ProcessSource { src, kind, pmode } => {
                 let id = ctx.fresh_msg();
                 let m = Msg::new(ctx, id, *kind, DRIVER_TTL, child_salt(0xD217, idx, 0));
                 match sources.get_mut(*src as usize) {
                     Some(Source::Event(es)) => {
                         ctx.log(Ev::SendBegin { actor: Actor::Driver, port: 3000 + *src, msg: id, kind: *kind, query: false, salt: m.salt, ttl: m.ttl });
-                        let action = es.event(m);
+                        // `process` runs the action once, now, whatever its kind
+                        let action = match pmode {
+                            1 => es.periodic_event(Duration::from_nanos(1_000_000_007), m),
+                            2 => es.keyed_event(m).0,
+                            _ => es.event(m),
+                        };
                         let r = guard(|| s.process(action));
                         ctx.log(Ev::SendEnd { actor: Actor::Driver, port: 3000 + *src, msg: id, replies: vec![] });
                         r.err().unwrap_or(Res::Ok)
